@@ -12,6 +12,7 @@ pub mod reg;
 pub mod life;
 pub mod c12;
 pub mod c13;
+pub mod c17;
 
 pub fn threads() -> usize {
     std::env::var("VERIF_THREADS")
@@ -39,6 +40,7 @@ pub fn plan(property: &str, tier: &str) -> Option<Plan> {
         "C06" | "C11" | "C19" => Some(life::plan(property, quick)),
         "C12" => Some(c12::plan(quick)),
         "C13" => Some(c13::plan(quick)),
+        "C17" => Some(c17::plan(quick)),
         "C01" | "C07" | "C08" | "C09" | "C10" | "C15" | "C16" => Some(chat::plan(property, quick)),
         _ => None,
     }
